@@ -79,16 +79,16 @@ type record struct {
 }
 
 type worker struct {
-	fam      *Family
-	out      *os.File
-	enc      *json.Encoder
-	progress []byte
-	stats    Stats
-	sigs     map[uint64]struct{}
-	keys     map[string]int
-	suspects int
-	seen     map[uint64]visit
-	deadline time.Time
+	fam       *Family
+	out       *os.File
+	enc       *json.Encoder
+	progress  []byte
+	stats     Stats
+	sigs      map[uint64]struct{}
+	keys      map[string]int
+	suspects  int
+	seen      map[uint64]visit
+	deadline  time.Time
 	lastFlush time.Time
 }
 
